@@ -395,7 +395,6 @@ func c04AllCandidates(c *Ctx, rule string) {
 	}
 	n := 0
 	for _, f := range scope {
-		loops := flow.Loops(f)
 		ssau.Instrs(f, func(in ssa.Instruction) {
 			cl, ok := in.(*ssa.Call)
 			if !ok || !cl.Common().IsInvoke() || cl.Common().Method.Name() != "Exec" {
@@ -410,7 +409,9 @@ func c04AllCandidates(c *Ctx, rule string) {
 			if !isGuard {
 				return
 			}
-			L := flow.InnermostLoop(loops, cl.Block())
+			// the loop around the guard: in this function, or around the place from which the helper (a method, a
+			// called method value) that executes the guard is run
+			L, _ := guardLoopOf(cl, scope)
 			if L == nil {
 				return
 			}
